@@ -560,6 +560,13 @@ def mon_C02(case):
         # push
         want_push = sorted(u for u, p in c["users"].items() if not p["deleted"] and has(eff(p["want"], p["given"]), "R")
                            and has(eff(p["want"], p["given"]), "P") and u != "-" and not p.get("chan"))
+        # (a subscriber the store holds - an invitation which was acknowledged - but whom the topic still counts as gone is a subscriber)
+        srow = pre.store.get(t, {}).get("subs", {}) if pre else {}
+        for u, p in c["users"].items():
+            sr = srow.get(u)
+            if p["deleted"] and sr is not None and not sr["deleted"] and u not in want_push and not p.get("chan") \
+                    and has(eff(sr["want"], sr["given"]), "R") and has(eff(sr["want"], sr["given"]), "P"):
+                want_push = sorted(want_push + [u])
         pushes = [p for p in ln.pushes if p.get("what") == "msg"]
         if len(pushes) > 1:
             out.append((i, f"C02 {len(pushes)} push notifications for one message"))
